@@ -61,3 +61,11 @@ claim("C03", "bounded-exhaustive enumeration of start terms x rule subsets x sub
       "All start terms of size <=3 (thorough 4) plus binder-heavy specials x every subset of <=3 of 20 model-valid rules, the full pool, and let-subst pairs, under SynExprSubst and ExtractionSubst, via apply_rewrites (up to 3/4 iterations) and Runner::run. After every iteration every e-node of every class is evaluated for ALL environments in F_5 (thorough also F_7) against its class table, including slots the class does not have, and the root class against the directly evaluated start term. Rules are self-tested against the model first.",
       "Prime fields p in {5,7}; e-graphs above the node budget are skipped; the rule self-test models pattern semantics (capture by pattern slot names, admissible instantiations).",
       "DESIGN.md 3.3, 5 C03")
+claim("C14", "bounded-exhaustive enumeration of operation sequences (insertions, model-valid unions, rewrite iterations) under three analyses, fixpoint equation and independent least fixpoint checked at every class after every operation",
+      "Every ordered sequence of <=2 (thorough 3) operations over insertions of all small arithmetic terms, every model-valid union between them and five rewrite-iteration rule sets, run under min-size, constant folding in F_5 (with a modify hook adding the constant) and depth. After every operation, at every class: datum == join of make over eg.enodes(), == independently computed least fixpoint, union result absorbs both sides; min-size == Extractor best cost; constant classes denote that constant in the finite-field model; no two different constants merged.",
+      "Unions restricted to equations valid in F_5 and F_7; analyses are defined in the harness (semilattice joins).",
+      "DESIGN.md 5 C14")
+claim("C15", "exhaustive enumeration of start terms x rule sets x limit/hook configurations through apply_rewrites, Runner::run and run_eqsat with an independent change fingerprint",
+      "apply_rewrites: false => independent fingerprint (nodes, per-class slots/e-nodes/brute-force symmetry count, canonical forms of known invocations) unchanged. Runner::run and run_eqsat under all combinations of iter_limit 0/1/2/5, node_limit 1/10/10000, time_limit 0/unbounded, hooks none/fail@1/fail@2/fail-at-8-nodes: report node count, iteration bound, truth of every stop reason in the final state, and after Saturated one more application changes nothing and every match has equal sides.",
+      "Wall-clock time limits other than 0/unbounded are not driven (schedule dependent).",
+      "DESIGN.md 5 C15")
